@@ -1,1 +1,281 @@
-fn main() { eprintln!("not built yet"); std::process::exit(2); }
+//! vp-grpc — monitor for C19 "Targets cross the gRPC adapter boundary unchanged".
+//!
+//! The real `GrpcDiscoveryAdapter` / `GrpcStrategyAdapter` of the tree under test talk over loopback
+//! to in-process tonic services whose stubs are generated (build.rs) from the repository's own
+//! `.proto` files. The mock records every request it receives and answers from the scenario; the
+//! oracle compares, field by field, what went in with what came out (see `judge.rs`).
+mod cases;
+mod judge;
+mod mock;
+
+#[allow(dead_code, clippy::all, clippy::pedantic)]
+pub mod pb {
+    tonic::include_proto!("scrayosnet.passage.adapter");
+}
+
+use cases::{Case, SelectReply};
+use judge::{CallResult, Finding};
+use mock::{Plan, Recorded, Worker};
+use serde_json::{Value, json};
+use std::sync::Mutex;
+use std::sync::atomic::{AtomicUsize, Ordering};
+use std::time::Duration;
+use vp_common::report::{self, Cli, Report};
+
+const CALL_TIMEOUT: Duration = Duration::from_secs(15);
+
+/// What one execution of one case produced.
+struct Execution {
+    requests: Vec<Recorded>,
+    result: Option<CallResult>,
+    /// the harness could not observe the call (transport trouble, timeout): no verdict for the case
+    trouble: Option<String>,
+}
+
+async fn execute(worker: &Worker, case: &Case) -> Execution {
+    worker.shared.arm(match case {
+        Case::Discover { reply } => Plan::Discover(reply.iter().map(cases::TargetSpec::to_wire).collect()),
+        Case::Select { reply, .. } => match reply {
+            SelectReply::None => Plan::SelectNone,
+            SelectReply::EchoReceived { index } => Plan::SelectEchoReceived(*index),
+            SelectReply::Scripted { target, .. } => Plan::SelectScripted(target.to_wire()),
+        },
+    });
+    let fut = judge::call_adapter(worker, case);
+    let result = match tokio::time::timeout(CALL_TIMEOUT, fut).await {
+        Ok(r) => Some(r),
+        Err(_) => None,
+    };
+    let requests = worker.shared.disarm();
+    let mut trouble = None;
+    match &result {
+        None => trouble = Some(format!("adapter call did not complete within {CALL_TIMEOUT:?}")),
+        Some(r) => {
+            // an error without any request having arrived is a transport problem, not an
+            // observation; an Ok without a request is judged (the service was never asked)
+            if requests.is_empty() && r.is_err() {
+                trouble = Some(format!(
+                    "the mock service saw no request for this call (adapter returned {})",
+                    r.brief()
+                ));
+            }
+        }
+    }
+    Execution { requests, result, trouble }
+}
+
+struct CaseOutcome {
+    /// false when the call could not be observed at all (no evaluation is counted)
+    observed: bool,
+    class: Option<String>,
+    counters: Vec<(&'static str, u64)>,
+    findings: Vec<Finding>,
+    inconclusive: Option<String>,
+    sample: Option<Value>,
+}
+
+fn observed_json(exec: &Execution) -> Value {
+    json!({
+        "requests_recorded_by_mock": exec.requests.iter().map(Recorded::to_json).collect::<Vec<_>>(),
+        "adapter_returned": exec.result.as_ref().map(CallResult::to_json),
+    })
+}
+
+async fn run_case(worker: &Worker, index: usize, case: &Case, want_sample: bool) -> CaseOutcome {
+    let mut counters = cases::counters(case);
+    let mut exec = execute(worker, case).await;
+    if exec.trouble.is_some() {
+        // one retry: a transport hiccup is not an observation
+        exec = execute(worker, case).await;
+    }
+    if let Some(t) = exec.trouble {
+        return CaseOutcome {
+            observed: false,
+            class: None,
+            counters,
+            findings: vec![],
+            inconclusive: Some(format!("case {index}: {t}")),
+            sample: None,
+        };
+    }
+    let result = exec.result.as_ref().expect("no trouble implies a result");
+    counters.push(("requests recorded by the mock services", exec.requests.len() as u64));
+    let (mut findings, compared) = judge::judge(case, &exec.requests, result);
+    counters.push(("targets compared field-wise (result side)", compared.result_targets));
+    counters.push(("targets compared field-wise (request side)", compared.request_targets));
+    counters.push(("malformed replies that had to be rejected", compared.malformed_expected));
+    let mut inconclusive = None;
+    if !findings.is_empty() {
+        // a witness must replay: run the case a second time and keep what shows up again
+        let again = execute(worker, case).await;
+        if again.trouble.is_some() {
+            inconclusive = Some(format!(
+                "case {index}: a deviation was observed but the confirming run had transport trouble ({})",
+                again.trouble.unwrap_or_default()
+            ));
+            findings.clear();
+        } else {
+            let r2 = again.result.as_ref().expect("no trouble implies a result");
+            let (f2, _) = judge::judge(case, &again.requests, r2);
+            let before = findings.len();
+            findings.retain(|f| f2.iter().any(|g| g.signature == f.signature));
+            if findings.len() != before {
+                inconclusive = Some(format!(
+                    "case {index}: {} deviation(s) did not reproduce on an immediate re-run and were not reported",
+                    before - findings.len()
+                ));
+            }
+        }
+    }
+    let observed = observed_json(&exec);
+    for f in &mut findings {
+        f.witness = json!({
+            "case_index": index,
+            "case": case,
+            "observed": observed,
+            "deviation": f.detail,
+        });
+    }
+    let sample = if want_sample {
+        Some(json!({ "case_index": index, "case": case, "observed": observed,
+                     "verdict": if findings.is_empty() { "conforms" } else { "deviates" } }))
+    } else {
+        None
+    };
+    CaseOutcome {
+        observed: true,
+        class: cases::class_key(case),
+        counters,
+        findings,
+        inconclusive,
+        sample,
+    }
+}
+
+fn worker_thread(
+    cases: &[Case],
+    next: &AtomicUsize,
+    out: &Mutex<Vec<Option<CaseOutcome>>>,
+    setup_errors: &Mutex<Vec<String>>,
+) {
+    let rt = match tokio::runtime::Builder::new_current_thread().enable_all().build() {
+        Ok(rt) => rt,
+        Err(e) => {
+            setup_errors.lock().unwrap_or_else(|e| e.into_inner()).push(format!("runtime: {e}"));
+            return;
+        }
+    };
+    rt.block_on(async {
+        let worker = match Worker::start().await {
+            Ok(w) => w,
+            Err(e) => {
+                setup_errors.lock().unwrap_or_else(|e| e.into_inner()).push(e);
+                return;
+            }
+        };
+        loop {
+            let i = next.fetch_add(1, Ordering::Relaxed);
+            if i >= cases.len() {
+                break;
+            }
+            let small = cases::target_count(&cases[i]) <= 3;
+            let o = run_case(&worker, i, &cases[i], small).await;
+            out.lock().unwrap_or_else(|e| e.into_inner())[i] = Some(o);
+        }
+    });
+}
+
+fn main() {
+    let mut cli = Cli::parse();
+    if cli.replay.is_some() {
+        // a replay must not overwrite the evidence of the last full run
+        cli.evidence = cli.evidence.with_extension("replay.json");
+    }
+    report::watchdog(&cli.prop, cli.tier.pick(240, 900));
+    let mut report = Report::new(
+        &cli,
+        "exploration",
+        "cases are adapter calls generated from VERIF_SEED and fully materialised: discover() against a mock Discovery \
+         service answering 0-50 targets, and select() with 0-50 candidates against a mock Strategy service that answers \
+         none / echoes a received candidate verbatim / answers a re-rendered or malformed copy of a candidate. Targets mix \
+         IPv4 and IPv6 addresses in several textual forms, boundary and random ports, unique-key metadata and non-ASCII \
+         identifiers. A case is non-trivial when it carries at least one target; two cases are distinct when they differ \
+         in operation, address-family mix, list-length bucket, set of textual address forms, set of port classes, metadata \
+         size bucket, or reply mode / malformation class",
+    );
+    if cli.prop != "C19" {
+        report.inconclusive_fatal(&format!("vp-grpc only decides C19, not {}", cli.prop));
+        std::process::exit(report.finish());
+    }
+    report.assume("the mock services are tonic servers generated from the repository's own .proto files; tonic/prost/HTTP-2 transport is trusted to deliver messages as encoded");
+    report.assume("IPv6 flow label and scope id are 0 in every generated address (the wire format has no field for them); zone-suffixed hosts are not generated");
+    report.assume("the wire text of an IP address and the wire order of metadata entries are the adapter's choice: the request-side oracle compares the address each host string denotes and metadata as a set of entries");
+    report.assume("the Status service carries no targets (StatusRequest/StatusResponse have no Target field), so the status adapter is outside this property");
+    report.assume("a bracketed IPv6 host (\"[::1]\") may be accepted with the denoted address or rejected; either is conforming");
+    report.assume("a negative protocol number may reach the wire sign- or zero-extended (uint64 field); its low 32 bits must be the number given");
+
+    let cases: Vec<Case> = if let Some(path) = &cli.replay {
+        match cases::load_replay(path) {
+            Ok(c) => vec![c],
+            Err(e) => {
+                report.inconclusive_fatal(&format!("cannot load replay file {}: {e}", path.display()));
+                std::process::exit(report.finish());
+            }
+        }
+    } else {
+        let n = cli.scaled(cli.tier.pick(300, 20_000)) as usize;
+        cases::generate(cli.seed, n)
+    };
+
+    let threads = cli.threads().min(cases.len().max(1));
+    let next = AtomicUsize::new(0);
+    let mut slots: Vec<Option<CaseOutcome>> = Vec::with_capacity(cases.len());
+    slots.resize_with(cases.len(), || None);
+    let out = Mutex::new(slots);
+    let setup_errors = Mutex::new(Vec::<String>::new());
+    std::thread::scope(|s| {
+        for _ in 0..threads {
+            s.spawn(|| worker_thread(&cases, &next, &out, &setup_errors));
+        }
+    });
+    let setup_errors = setup_errors.into_inner().unwrap_or_else(|e| e.into_inner());
+    for e in &setup_errors {
+        report.inconclusive(&format!("worker setup failed: {e}"));
+    }
+    let outcomes = out.into_inner().unwrap_or_else(|e| e.into_inner());
+    let mut missing = 0u64;
+    let mut troubled = 0u64;
+    for o in outcomes {
+        let Some(o) = o else {
+            missing += 1;
+            continue;
+        };
+        if let Some(why) = &o.inconclusive {
+            report.inconclusive(why);
+        }
+        if !o.observed {
+            troubled += 1;
+            continue; // not observed: does not count as an evaluation
+        }
+        report.eval(o.class.as_deref());
+        for (k, n) in o.counters {
+            report.count(k, n);
+        }
+        if let Some(s) = o.sample {
+            report.sample(s);
+        }
+        for f in o.findings {
+            report.violation(&f.signature, &f.what, f.witness);
+        }
+    }
+    if missing > 0 {
+        report.inconclusive_fatal(&format!("{missing} case(s) were never executed (worker setup failed)"));
+    }
+    if troubled as usize * 20 > cases.len() {
+        report.inconclusive_fatal(&format!(
+            "{troubled} of {} cases could not be observed (transport trouble)",
+            cases.len()
+        ));
+    }
+    std::process::exit(report.finish());
+}
